@@ -261,6 +261,7 @@ class Env:
                    (json, "dumps", self.dumps), (json, "loads", self.loads), (hmac, "new", self.hmac_new),
                    (hmac, "compare_digest", self.compare_digest), (secrets, "token_bytes", self.token_bytes),
                    (os, "urandom", self.urandom)]
+        triples += memo_patches()
         ctxs = []
         for p in extra:
             if isinstance(p, tuple):
@@ -290,6 +291,44 @@ class Env:
                 else:
                     setattr(obj, attr, old)
             CUR = prev
+
+
+class PyMemo:
+    """model of functools.lru_cache / functools.cache as plain Python: CrossHair turns the C wrapper into a pass-through (so a memoising
+    function would look stateless); this keeps its defining behaviour -- equal arguments return THE SAME object again -- visible.
+    One table per environment installation, i.e. state lives exactly as long as one modelled history (eviction is not modelled)."""
+    def __init__(self, fn):
+        self.fn, self.table = fn, []
+        self.__wrapped__ = fn
+
+    def __call__(self, *a, **k):
+        for (a0, k0, r0) in self.table:
+            if len(a0) == len(a) and all(type(x) is type(y) and x == y for x, y in zip(a0, a)) and k0 == k:
+                return r0
+        r = self.fn(*a, **k)
+        self.table.append((a, k, r))
+        return r
+
+    def cache_clear(self):
+        self.table = []
+
+
+_MEMO_SITES = None
+
+
+def memo_patches():
+    """(module, attribute, PyMemo) for every functools cache wrapper bound in a joserfc module (none on the pinned tree)"""
+    global _MEMO_SITES
+    import functools
+    if _MEMO_SITES is None:
+        sites = []
+        for mname, mod in list(sys.modules.items()):
+            if mname.startswith("joserfc") and mod is not None:
+                for attr, val in list(vars(mod).items()):
+                    if isinstance(val, functools._lru_cache_wrapper):
+                        sites.append((mod, attr, val.__wrapped__))
+        _MEMO_SITES = sites
+    return [(mod, attr, PyMemo(fn)) for mod, attr, fn in _MEMO_SITES]
 
 
 def mac_tag(name, key, msg):
@@ -1171,8 +1210,11 @@ def leak_scan(env, output, oct_keys=(), kids=()):
     def walk(v, where, depth=0):
         if depth > 8:
             return
-        if v.__class__ not in (dict, list, tuple, str, bytes, int):
-            return            # CrossHair symbolic values (harness inputs such as the payload) and opaque primitive outputs
+        cn = v.__class__.__name__
+        if cn.startswith(("Symbolic", "LazyInt", "AnySymbolic")) or isinstance(v, Opaque):
+            return            # CrossHair symbolic leaves (harness inputs such as the payload) and opaque primitive outputs
+        if not isinstance(v, (dict, list, tuple, str, bytes, int)):
+            return            # (isinstance, not __class__: dict(...) / set(...) made under tracing are proxy containers)
         if isinstance(v, dict):
             for k, x in v.items():
                 if k in PRIVATE_NAMES:
